@@ -244,6 +244,14 @@ package mhprimary
 //@   loop 0 invariant @free-span freeAt > busyAt ==> gB[freeAt] && freeAt + 4 + freeAtSize == pos
 //@   loop 0 invariant @busy-sizes 0 <= busySize && busySize < 1073741824 && 0 <= prevBusySize && prevBusySize < 1073741824
 //@   loop 0 invariant @busy-records (busyAt >= 0 ==> gB[busyAt] && busySize == gS[busyAt]) && (prevBusyAt >= 0 ==> gB[prevBusyAt] && prevBusySize == gS[prevBusyAt])
+// C11 (drained by relocation): once the low-use condition sent the function into the relocation
+// loop, it returns without error only when no tracked live record is left - a live record at
+// local offset 0, the first record of a file, included (seeded change C11-C).
+//@   ghost var glow bool = false
+//@   ghost var gleft int = 0 - 1
+//@   ghost at loop 1 head: glow = true
+//@   ghost at loop 1 head: gleft = busyAt
+//@   internal ensures @C11-low-use-file-drained err == nil && glow ==> gleft < 0
 //@   loop 1 invariant @busy-sizes 0 <= busySize && busySize < 1073741824 && 0 <= prevBusySize && prevBusySize < 1073741824
 //@   loop 1 invariant @busy-records 0 - 1 <= busyAt && (busyAt >= 0 ==> gB[busyAt] && busySize == gS[busyAt]) && 0 - 1 <= prevBusyAt && (prevBusyAt >= 0 ==> gB[prevBusyAt] && prevBusySize == gS[prevBusyAt])
 //@   loop 1 invariant @handles file != nil && fresh(file) && len(sizeBuf) == 4 && fresh(sizeBuf) && gc.primary == old(gc.primary) && gc.freeList == old(gc.freeList) && inv(gc.primary)
